@@ -374,17 +374,25 @@ theorem cleanupLoop_keeps (now : Nat) (hs : Bool) (k m : Nat) (fl : Faults) :
           have hgz : n.gz = false := by
             cases hg : n.gz <;> simp [hg] at c4 ⊢
           have hne : gzTwin n ≠ x := h2 (n, f) (by simp) hgz
-          have hset : (d.set { n with gz := true } ⟨f.data, now⟩).get x = some v := by
+          have hset : ∀ w : File, (d.set { n with gz := true } w).get x = some v := by
+            intro w
             rw [show ({ n with gz := true } : FName) = gzTwin n from rfl,
               FlwA.get_set_ne _ _ _ _ (Ne.symm hne)]
             exact h
           by_cases c5 : hit fl.gzF gzc = true
           · rw [if_pos c5]; exact h
           · rw [if_neg c5]
-            by_cases c6 : hit fl.removeF rm = true
-            · rw [if_pos c6]; exact hset
-            · rw [if_neg c6]
-              exact ih _ _ _ _ x v (by rw [FlwA.get_erase_ne _ _ _ (Ne.symm hn)]; exact hset) h1' h2'
+            by_cases c5a : hit fl.gzCopyF gzc = true
+            · rw [if_pos c5a]; exact hset _
+            · rw [if_neg c5a]
+              by_cases c5b : hit fl.gzFinishF gzc = true
+              · rw [if_pos c5b]; exact hset _
+              · rw [if_neg c5b]
+                by_cases c6 : hit fl.removeF rm = true
+                · rw [if_pos c6]; exact hset _
+                · rw [if_neg c6]
+                  exact ih _ _ _ _ x v
+                    (by rw [FlwA.get_erase_ne _ _ _ (Ne.symm hn)]; exact hset _) h1' h2'
       · rw [if_neg c3]; exact ih _ _ _ _ x v h h1' h2'
 
 /-- no plain file of the list has its compressed twin in the list, and the names are distinct
@@ -454,50 +462,52 @@ theorem cleanup_fault_removes_only_old (now : Nat) (hs : Bool) (k m : Nat) (fl :
             simp [gzTwin, hgz] at this
           have tw : ({ n0 with gz := true } : FName) = gzTwin n0 := rfl
           rw [tw] at h2 ⊢
+          -- an aborting step that only `set`s the twin cannot make a name disappear
+          have abort : ∀ w : File, (d.set (gzTwin n0) w).get n = none → False := by
+            intro w h2
+            by_cases hx : n = gzTwin n0
+            · rw [hx, FlwA.get_set_self] at h2
+              cases h2
+            · rw [FlwA.get_set_ne _ _ _ _ hx] at h2
+              exact h1 h2
           by_cases c5 : hit fl.gzF gzc = true
           · rw [if_pos c5] at h2; exact absurd h2 h1
           · rw [if_neg c5] at h2 ⊢
-            by_cases c6 : hit fl.removeF rm = true
-            · rw [if_pos c6] at h2
-              exfalso
-              by_cases hx : n = gzTwin n0
-              · rw [hx] at h2
-                have : (d.set (gzTwin n0) ⟨f0.data, now⟩).get (gzTwin n0) = some ⟨f0.data, now⟩ :=
-                  FlwA.get_set_self _ _ _
-                rw [this] at h2
-                cases h2
-              · rw [FlwA.get_set_ne _ _ _ _ hx] at h2
-                exact h1 h2
-            · rw [if_neg c6] at h2 ⊢
-              by_cases hn : n = n0
-              · subst hn
-                refine ⟨0, f0, by simp, by omega, fun _ => ?_⟩
-                apply cleanupLoop_keeps
-                · rw [FlwA.get_erase_ne _ _ _ htw]
-                  exact FlwA.get_set_self _ _ _
-                · intro e he
-                  exact hnt.2 (n, f0) (by simp) hgz e (by simp [he])
-                · intro e he hg heq
-                  -- two plain files with the same twin are equal
-                  have : e.1 = n := by
-                    obtain ⟨⟨ei, eg⟩, ef⟩ := e
-                    obtain ⟨ni, ng⟩ := n
-                    simp only [gzTwin, FName.mk.injEq, and_true] at heq hg hgz ⊢
-                    exact ⟨heq, by rw [hg, hgz]⟩
-                  have hnd := (List.nodup_cons.1 hnt.1).1
-                  apply hnd
-                  rw [← this]
-                  exact List.mem_map.2 ⟨e, he, rfl⟩
-              · refine shift _ (ih _ _ _ _ hnt' n ?_ h2)
-                rw [FlwA.get_erase_ne _ _ _ hn]
-                by_cases hx : n = gzTwin n0
-                · rw [hx]
-                  have : (d.set (gzTwin n0) ⟨f0.data, now⟩).get (gzTwin n0) = some ⟨f0.data, now⟩ :=
-                    FlwA.get_set_self _ _ _
-                  rw [this]
-                  simp
-                · rw [FlwA.get_set_ne _ _ _ _ hx]
-                  exact h1
+            by_cases c5a : hit fl.gzCopyF gzc = true
+            · rw [if_pos c5a] at h2; exact (abort _ h2).elim
+            · rw [if_neg c5a] at h2 ⊢
+              by_cases c5b : hit fl.gzFinishF gzc = true
+              · rw [if_pos c5b] at h2; exact (abort _ h2).elim
+              · rw [if_neg c5b] at h2 ⊢
+                by_cases c6 : hit fl.removeF rm = true
+                · rw [if_pos c6] at h2; exact (abort _ h2).elim
+                · rw [if_neg c6] at h2 ⊢
+                  by_cases hn : n = n0
+                  · subst hn
+                    refine ⟨0, f0, by simp, by omega, fun _ => ?_⟩
+                    apply cleanupLoop_keeps
+                    · rw [FlwA.get_erase_ne _ _ _ htw]
+                      exact FlwA.get_set_self _ _ _
+                    · intro e he
+                      exact hnt.2 (n, f0) (by simp) hgz e (by simp [he])
+                    · intro e he hg heq
+                      -- two plain files with the same twin are equal
+                      have : e.1 = n := by
+                        obtain ⟨⟨ei, eg⟩, ef⟩ := e
+                        obtain ⟨ni, ng⟩ := n
+                        simp only [gzTwin, FName.mk.injEq, and_true] at heq hg hgz ⊢
+                        exact ⟨heq, by rw [hg, hgz]⟩
+                      have hnd := (List.nodup_cons.1 hnt.1).1
+                      apply hnd
+                      rw [← this]
+                      exact List.mem_map.2 ⟨e, he, rfl⟩
+                  · refine shift _ (ih _ _ _ _ hnt' n ?_ h2)
+                    rw [FlwA.get_erase_ne _ _ _ hn]
+                    by_cases hx : n = gzTwin n0
+                    · rw [hx, FlwA.get_set_self]
+                      simp
+                    · rw [FlwA.get_set_ne _ _ _ _ hx]
+                      exact h1
       · rw [if_neg c3] at h2 ⊢
         exact shift _ (ih _ _ _ _ hnt' n h1 h2)
 
@@ -661,5 +671,222 @@ example : NoTwins (listing exDir) ∧
     (cleanupLoop 9 true 1 1 { removeF := some 1 } (listing exDir) 0 exDir 0 0).1.get
       ⟨some (.num 0), true⟩ = some ⟨[0], 0⟩ := by
   unfold NoTwins; decide
+
+/-! ### 6. failed compression: `gzCopyF` (copy into the encoder fails) and `gzFinishF` (`finish()` fails) -/
+
+/-- a plain name is not its own compressed twin -/
+theorem ne_gzTwin_of_plain {x : FName} (hx : x.gz = false) (n : FName) : x ≠ gzTwin n := by
+  intro e
+  have := congrArg FName.gz e
+  rw [hx] at this
+  cases this
+
+/-- **The failing step** (one step of the pass, at the head `(n, f)` of the list): if the head is a
+    plain file inside the compress window (`k ≤ i < k + m`, files have a suffix), the creation of
+    the `.gz` does not fail (`gzF`) but the copy into the encoder (`gzCopyF`) or its `finish()`
+    (`gzFinishF`) does, then
+    * the pass aborts with the error flag set,
+    * the original `n` is still in the directory, with its data and birth time unchanged,
+    * the only name that changed is the twin `n.gz`: it exists, stamped `now`, and holds either
+      nothing (copy failed) or exactly the bytes of the original (finish failed) — never a
+      proper, non-empty part of them,
+    * every other name is untouched; in particular NOTHING is erased by this step. -/
+theorem failed_compression_step (now : Nat) (hs : Bool) (k m : Nat) (fl : Faults) (n : FName)
+    (f : File) (rest : List (FName × File)) (i : Nat) (d : Dir) (rm gzc : Nat)
+    (h1 : ¬ i ≥ k + m) (h2 : i ≥ k) (hgz : n.gz = false) (hsuf : hs = true)
+    (hc : hit fl.gzF gzc = false)
+    (hf : hit fl.gzCopyF gzc = true ∨ hit fl.gzFinishF gzc = true)
+    (hin : d.get n = some f) :
+    let r := cleanupLoop now hs k m fl ((n, f) :: rest) i d rm gzc
+    r.2 = true ∧
+    r.1.get n = some f ∧
+    (r.1.get (gzTwin n) = some ⟨[], now⟩ ∨ r.1.get (gzTwin n) = some ⟨f.data, now⟩) ∧
+    (hit fl.gzCopyF gzc = true → r.1.get (gzTwin n) = some ⟨[], now⟩) ∧
+    (hit fl.gzCopyF gzc = false → r.1.get (gzTwin n) = some ⟨f.data, now⟩) ∧
+    ∀ x, x ≠ gzTwin n → r.1.get x = d.get x := by
+  have hne : n ≠ gzTwin n := ne_gzTwin_of_plain hgz n
+  have h3 : (n.gz || !hs) = false := by rw [hgz, hsuf]; rfl
+  have tw : ({ n with gz := true } : FName) = gzTwin n := rfl
+  -- the result of the step is `(d.set (gzTwin n) w, true)` for one of the two contents `w`
+  have key : ∃ w : File,
+      cleanupLoop now hs k m fl ((n, f) :: rest) i d rm gzc = (d.set (gzTwin n) w, true) ∧
+      (hit fl.gzCopyF gzc = true → w = ⟨[], now⟩) ∧
+      (hit fl.gzCopyF gzc = false → w = ⟨f.data, now⟩) := by
+    simp only [cleanupLoop]
+    rw [if_neg h1, if_pos h2, h3, hc, tw]
+    simp only [Bool.false_eq_true, if_false]
+    by_cases c1 : hit fl.gzCopyF gzc = true
+    · rw [if_pos c1]
+      exact ⟨_, rfl, fun _ => rfl, fun h => by rw [c1] at h; cases h⟩
+    · rw [if_neg c1]
+      have c2 : hit fl.gzFinishF gzc = true := hf.resolve_left c1
+      rw [if_pos c2]
+      exact ⟨_, rfl, fun h => absurd h c1, fun _ => rfl⟩
+  obtain ⟨w, hr, hw1, hw2⟩ := key
+  simp only
+  rw [hr]
+  refine ⟨rfl, ?_, ?_, ?_, ?_, ?_⟩
+  · show (d.set (gzTwin n) w).get n = some f
+    rw [FlwA.get_set_ne _ _ _ _ hne]
+    exact hin
+  · show (d.set (gzTwin n) w).get (gzTwin n) = _ ∨ (d.set (gzTwin n) w).get (gzTwin n) = _
+    rw [FlwA.get_set_self]
+    cases hcp : hit fl.gzCopyF gzc
+    · exact Or.inr (by rw [hw2 hcp])
+    · exact Or.inl (by rw [hw1 hcp])
+  · intro hcp
+    show (d.set (gzTwin n) w).get (gzTwin n) = _
+    rw [FlwA.get_set_self, hw1 hcp]
+  · intro hcp
+    show (d.set (gzTwin n) w).get (gzTwin n) = _
+    rw [FlwA.get_set_self, hw2 hcp]
+  · intro x hx
+    show (d.set (gzTwin n) w).get x = d.get x
+    exact FlwA.get_set_ne _ _ _ _ hx
+
+/-- a pass, aborted or not and whatever fails, never changes the CONTENT of a plain file: a plain
+    name that is in the directory afterwards was there before, with the same data and birth time
+    (the pass only ever writes to `.gz` names) -/
+theorem cleanupLoop_plain_stable (now : Nat) (hs : Bool) (k m : Nat) (fl : Faults) :
+    ∀ (l : List (FName × File)) (i : Nat) (d : Dir) (rm gzc : Nat) (x : FName) (w : File),
+      x.gz = false → (cleanupLoop now hs k m fl l i d rm gzc).1.get x = some w →
+      d.get x = some w := by
+  intro l
+  induction l with
+  | nil => intro i d rm gzc x w _ h; simpa [cleanupLoop] using h
+  | cons e rest ih =>
+    intro i d rm gzc x w hx h
+    obtain ⟨n, f⟩ := e
+    have herase : ∀ (d' : Dir) (y : FName), (d'.erase y).get x = some w → d'.get x = some w := by
+      intro d' y hy
+      by_cases e : x = y
+      · rw [e, FlwA.get_erase_self] at hy
+        cases hy
+      · rw [FlwA.get_erase_ne _ _ _ e] at hy
+        exact hy
+    have hset : ∀ u : File, (d.set { n with gz := true } u).get x = some w → d.get x = some w := by
+      intro u hu
+      rw [show ({ n with gz := true } : FName) = gzTwin n from rfl,
+        FlwA.get_set_ne _ _ _ _ (ne_gzTwin_of_plain hx n)] at hu
+      exact hu
+    simp only [cleanupLoop] at h
+    by_cases c1 : i ≥ k + m
+    · rw [if_pos c1] at h
+      by_cases c2 : hit fl.removeF rm = true
+      · rw [if_pos c2] at h; exact h
+      · rw [if_neg c2] at h
+        exact herase _ _ (ih _ _ _ _ x w hx h)
+    · rw [if_neg c1] at h
+      by_cases c3 : i ≥ k
+      · rw [if_pos c3] at h
+        by_cases c4 : (n.gz || !hs) = true
+        · rw [if_pos c4] at h; exact ih _ _ _ _ x w hx h
+        · rw [if_neg c4] at h
+          by_cases c5 : hit fl.gzF gzc = true
+          · rw [if_pos c5] at h; exact h
+          · rw [if_neg c5] at h
+            by_cases c5a : hit fl.gzCopyF gzc = true
+            · rw [if_pos c5a] at h; exact hset _ h
+            · rw [if_neg c5a] at h
+              by_cases c5b : hit fl.gzFinishF gzc = true
+              · rw [if_pos c5b] at h; exact hset _ h
+              · rw [if_neg c5b] at h
+                by_cases c6 : hit fl.removeF rm = true
+                · rw [if_pos c6] at h; exact hset _ h
+                · rw [if_neg c6] at h
+                  exact hset _ (herase _ _ (ih _ _ _ _ x w hx h))
+      · rw [if_neg c3] at h; exact ih _ _ _ _ x w hx h
+
+/-- **A failed compression never costs the original** (whole pass, EVERY fault assignment, in
+    particular every `gzCopyF`/`gzFinishF`): for every plain file `x` that is in the directory
+    before a pass of `cleanupLoop`, afterwards
+    * either `x` is still there, with the same data and birth time — this is what happens to the
+      file whose compression failed (`failed_compression_step`) and to everything after it —,
+    * or `x` was handled by a SUCCESSFUL step: it is an entry of the listing with index `≥ k`,
+      and if its index is below `k + m` (compress window) its twin holds exactly its bytes.
+    So the state "original gone, `.gz` empty or partial" — the only way a failed compression
+    could lose data — is unreachable. -/
+theorem failed_compression_keeps_original (now : Nat) (hs : Bool) (k m : Nat) (fl : Faults)
+    (l : List (FName × File)) (i : Nat) (d : Dir) (rm gzc : Nat) (hnt : NoTwins l)
+    (x : FName) (v : File) (hx : x.gz = false) (hin : d.get x = some v) :
+    (cleanupLoop now hs k m fl l i d rm gzc).1.get x = some v ∨
+    ((cleanupLoop now hs k m fl l i d rm gzc).1.get x = none ∧
+      ∃ j f, l[j]? = some (x, f) ∧ k ≤ i + j ∧
+        (i + j < k + m →
+          (cleanupLoop now hs k m fl l i d rm gzc).1.get (gzTwin x) = some ⟨f.data, now⟩)) := by
+  cases hout : (cleanupLoop now hs k m fl l i d rm gzc).1.get x with
+  | some w =>
+    left
+    have := cleanupLoop_plain_stable now hs k m fl l i d rm gzc x w hx hout
+    rw [hin] at this
+    exact this.symm
+  | none =>
+    right
+    refine ⟨rfl, ?_⟩
+    exact cleanup_fault_removes_only_old now hs k m fl l i d rm gzc hnt x
+      (by rw [hin]; exact fun h => nomatch h) hout
+
+/-- keep 1 plain and 1 compressed file; two plain files `r00001`, `r00000` -/
+def exDir2 : Dir :=
+  [(⟨some (.num 1), false⟩, ⟨[1, 1], 0⟩), (⟨some (.num 0), false⟩, ⟨[5, 6, 7], 0⟩)]
+
+/-- non-vacuity, `gzCopyF`: the listing is `[r00001, r00000]`; `r00000` (index 1) is to be
+    compressed, the copy into the encoder fails: the pass is aborted with the error flag, the
+    original `r00000` is still there with its bytes, an EMPTY `r00000.gz` is left behind, and
+    `r00001` is untouched. The hypotheses of `failed_compression_step` hold at that step. -/
+example : NoTwins (listing exDir2) ∧
+    listing exDir2 = [(⟨some (.num 1), false⟩, ⟨[1, 1], 0⟩), (⟨some (.num 0), false⟩, ⟨[5, 6, 7], 0⟩)] ∧
+    hit ({ gzCopyF := some 0 } : Faults).gzF 0 = false ∧
+    hit ({ gzCopyF := some 0 } : Faults).gzCopyF 0 = true ∧
+    (cleanupLoop 9 true 1 1 { gzCopyF := some 0 } (listing exDir2) 0 exDir2 0 0).2 = true ∧
+    (cleanupLoop 9 true 1 1 { gzCopyF := some 0 } (listing exDir2) 0 exDir2 0 0).1.map (·.1) =
+      [⟨some (.num 0), true⟩, ⟨some (.num 1), false⟩, ⟨some (.num 0), false⟩] ∧
+    (cleanupLoop 9 true 1 1 { gzCopyF := some 0 } (listing exDir2) 0 exDir2 0 0).1.get
+      ⟨some (.num 0), false⟩ = some ⟨[5, 6, 7], 0⟩ ∧
+    (cleanupLoop 9 true 1 1 { gzCopyF := some 0 } (listing exDir2) 0 exDir2 0 0).1.get
+      ⟨some (.num 0), true⟩ = some ⟨[], 9⟩ ∧
+    (cleanupLoop 9 true 1 1 { gzCopyF := some 0 } (listing exDir2) 0 exDir2 0 0).1.get
+      ⟨some (.num 1), false⟩ = some ⟨[1, 1], 0⟩ := by
+  unfold NoTwins; decide
+
+/-- non-vacuity, `gzFinishF`: the same pass with a failing `finish()`: aborted, the original is
+    still there, next to a COMPLETE `r00000.gz` -/
+example :
+    (cleanupLoop 9 true 1 1 { gzFinishF := some 0 } (listing exDir2) 0 exDir2 0 0).2 = true ∧
+    (cleanupLoop 9 true 1 1 { gzFinishF := some 0 } (listing exDir2) 0 exDir2 0 0).1.get
+      ⟨some (.num 0), false⟩ = some ⟨[5, 6, 7], 0⟩ ∧
+    (cleanupLoop 9 true 1 1 { gzFinishF := some 0 } (listing exDir2) 0 exDir2 0 0).1.get
+      ⟨some (.num 0), true⟩ = some ⟨[5, 6, 7], 9⟩ ∧
+    -- without the fault the same pass compresses and removes `r00000`
+    (cleanupLoop 9 true 1 1 noFaults (listing exDir2) 0 exDir2 0 0).2 = false ∧
+    (cleanupLoop 9 true 1 1 noFaults (listing exDir2) 0 exDir2 0 0).1.get
+      ⟨some (.num 0), false⟩ = none ∧
+    (cleanupLoop 9 true 1 1 noFaults (listing exDir2) 0 exDir2 0 0).1.get
+      ⟨some (.num 0), true⟩ = some ⟨[5, 6, 7], 9⟩ ∧
+    -- `gzF` (the creation of the `.gz` fails) is tested first: nothing is left behind
+    (cleanupLoop 9 true 1 1 { gzF := some 0, gzCopyF := some 0 } (listing exDir2) 0 exDir2 0 0).2 =
+      true ∧
+    (cleanupLoop 9 true 1 1 { gzF := some 0, gzCopyF := some 0 } (listing exDir2) 0 exDir2 0 0).1.get
+      ⟨some (.num 0), true⟩ = none := by
+  decide
+
+/-- the same through `cleanup` (the entry point used by the writer) -/
+example :
+    (cleanup 9 ⟨none, false, none, false, true⟩ ⟨none, none, .numbers, some (1, 1)⟩
+      { gzCopyF := some 0 } exDir2).2 = true ∧
+    (cleanup 9 ⟨none, false, none, false, true⟩ ⟨none, none, .numbers, some (1, 1)⟩
+      { gzCopyF := some 0 } exDir2).1.get ⟨some (.num 0), false⟩ = some ⟨[5, 6, 7], 0⟩ ∧
+    (cleanup 9 ⟨none, false, none, false, true⟩ ⟨none, none, .numbers, some (1, 1)⟩
+      { gzCopyF := some 0 } exDir2).1.get ⟨some (.num 0), true⟩ = some ⟨[], 9⟩ := by
+  decide
+
+/-- `failed_compression_step` applied to the second step of that pass -/
+example :
+    (cleanupLoop 9 true 1 1 { gzCopyF := some 0 }
+      [(⟨some (.num 0), false⟩, ⟨[5, 6, 7], 0⟩)] 1 exDir2 0 0).1.get ⟨some (.num 0), false⟩ =
+      some ⟨[5, 6, 7], 0⟩ :=
+  (failed_compression_step 9 true 1 1 { gzCopyF := some 0 } ⟨some (.num 0), false⟩ ⟨[5, 6, 7], 0⟩
+    [] 1 exDir2 0 0 (by decide) (by decide) rfl rfl (by decide) (Or.inl (by decide))
+    (by decide)).2.1
 
 end FV.C19
